@@ -216,8 +216,6 @@ theorem known_pseudo_escape_round_trip_fails :
 
 /-! ## non-vacuity: the hypotheses are satisfiable (a rich written selector is `ok`), and a test by evaluation -/
 
-private def nm (s : List Nat) : Cps := s
-
 /-- `*|div#i/*x*/.c[ p|href ~='a']:HoVer:N\OT( [|x]):BeFore > p|*:nth-child( 2n + 1 ) ::x(a) /*t*/ ` -/
 def demo : Sel := {
   lead := [.ws [32]],
